@@ -20,9 +20,10 @@ CHECKS = [
        "Seeded search over operation histories and thread schedules: sequential histories are compared "
        "op-by-op with an executable LRU model; concurrent workloads of 2-16 real threads run one at a time "
        "under a seeded baton scheduler that may pre-empt at every line - in half of the runs every bytecode "
-       "instruction - of lru_cache.py, at every lock operation and every next() of a listing; clients also use the "
-       "cache while one of their own listings is open and abandon listings half way; never-fails, capacity, "
-       "deadlock and linearizability oracles. "
+       "instruction - of lru_cache.py, at every lock operation, every next() of a listing and inside the Python-level "
+       "__hash__/__eq__ of some key styles; clients also use the cache while one of their own listings is open, "
+       "abandon listings half way, use equal-but-distinct key objects and store values whose finalizer looks at the "
+       "cache; never-fails, capacity, deadlock and linearizability oracles. "
        "A clean batch is evidence over the sampled schedules, not proof.",
        "Trusts CPython's OrderedDict C operations to be atomic under the GIL; pre-emption inside lru_cache.py "
        "happens at instruction or line boundaries and at lock operations, never inside a C call; the scheduler, "
@@ -37,8 +38,9 @@ CHECKS = [
        "what the corresponding non-caching loader returns for the same request over the same store (refinement), "
        "with an interval-based freshness rule, a delegate-priority rule for names living in several delegates of a "
        "choice loader, cache well-formedness after every step, a separate fault configuration (store errors, errno "
-       "faults, cancellation), and a thread configuration (synchronous requests, edits and deletes from 1-5 baton "
-       "threads on thread-safe compositions of the caching mixin, pre-empted inside the loader modules). "
+       "faults, cancellation), two successive event loops over one loader, and a thread configuration (synchronous "
+       "requests, edits and deletes from 1-5 baton threads on thread-safe compositions of the caching mixin, "
+       "pre-empted inside the loader modules). "
        "A clean batch is evidence, not proof.",
        "Trusts asyncio's Task/Future semantics and FIFO ready queue; executor jobs are atomic at a seeded virtual "
        "time; freshness is only demanded where the source supplies an uptodate callable; under threads request globals "
@@ -54,8 +56,10 @@ CHECKS = [
        "separate fault configuration injects errno faults and content edits at the k-th storage call of a request "
        "and only relaxes 'may fail', never 'may return outside or wrong data'; sequential histories and phased "
        "concurrent histories mutate the tree between requests (files and directories swapped for links that leave "
-       "the root, shadowing, deletion, older and newer mtimes) and cancel requests in flight, each request being "
-       "judged against the tree as it is at that moment. Evidence over sampled names and trees, not proof.",
+       "the root, shadowing, deletion, ENOTDIR / ELOOP, older and newer mtimes), cancel requests in flight and move to a "
+       "second event loop, each request being judged against the tree as it is at that moment; loaders are also "
+       "built by the factory functions and composed behind choice loaders. Evidence over sampled names and trees, "
+       "not proof.",
        "POSIX semantics on tmpfs; directory-backed packages only; the tree changes only while no request is in "
        "flight (check-then-open races against a concurrently mutated tree are outside the stated quantifier); "
        "the model resolver mirrors pathlib's documented suffix rule for 'ext'.",
@@ -68,8 +72,9 @@ CHECKS = [
        "through dict/choice/file-system/package/custom loaders and their caching variants while loaders, executor "
        "jobs and async drops suspend for seeded durations and several tasks share one template object; each "
        "result is compared with the synchronous result of the same operation when it returns; some callers cancel "
-       "their operation, some backing stores fail for some names (both APIs alike), and for the file-system loader a "
-       "second phase follows the appearance of override files in an earlier search directory. A sys.setprofile "
+       "their operation, some backing stores fail for some names (both APIs alike), some runs continue in a second event "
+       "loop or edit sources between two halves of a sequential history, and the synchronous API is also called on the "
+       "environment that suspended asynchronous tasks are using. A sys.setprofile "
        "probe reports which of liquid's async defs were entered. Evidence over sampled scenarios, not proof.",
        "Exceptions compare by class; the sync API is trusted as the reference (a defect mirrored in both twins is "
        "invisible); sources change only between the two phases of a run, with nothing in flight; memory addresses and "
